@@ -3,6 +3,7 @@
 cd /verif
 [ -z "$(git -C /repo status --porcelain)" ] || { echo "/repo dirty"; exit 2; }
 for d in /tmp/seeds5/C*/; do id=$(basename $d); P=${id%-*}; n=${id#*-}; k=$((n+4))
+  [ -f seeded/$P-$k/meta.json ] && [ -z "${REDO:-}" ] && continue
   conf=$(cat $d/confirm.txt 2>/dev/null | sed "s/^$id: //")
   git -C /repo apply $d/patch.diff || { echo "seed $id: patch does not apply to /repo"; continue; }
   out=$(bin/check $P 2>&1); rc=$?
